@@ -53,6 +53,22 @@ static int text_ok (ProgSpec *ps, int allow_special)
 {
   int wr[GEN_MAX_VARS] = { 0 }, ft[GEN_MAX_VARS], q, k, i;
   for (i = 0; i < ps->nvars; i++) ft[i] = -1;      /* -1: initial content (array fill / constant / parameter), 0: not a float, 4/8: float lanes */
+  /* a parameter plays one role only (offset, resampling start/step, shift count of one width, float, plain integer): its value
+   * is drawn from that role's domain, and the domains differ (a load offset of -3 is not a shift count the property covers) */
+  for (i = 0; i < ps->nvars; i++) if (ps->vars[i].kind == VK_PARAM) {
+    int role = -1;
+    for (q = 0; q < ps->ninsns; q++) {
+      const PInsn *in = &ps->insns[q]; const RefOp *op = gen_op (in);
+      for (k = 0; k < 4; k++) if (op->ssz[k] && in->src[k] == i) {
+        int r = 0;
+        if (op->kind == RK_LOADOFF && k == 1) r = 1;
+        else if ((op->kind == RK_RESNEAR || op->kind == RK_RESLIN) && k == 1) r = 2;
+        else if ((op->kind == RK_RESNEAR || op->kind == RK_RESLIN) && k == 2) r = 3;
+        else if (op->kind == RK_ELEM && (op->flags & RF_SCALAR) && k >= 1) r = 16 + op->ssz[0];
+        if (role == -1) role = r; else if (role != r) return 0;
+      }
+    }
+  }
   for (q = 0; q < ps->ninsns; q++) {
     const PInsn *in = &ps->insns[q]; const RefOp *op = gen_op (in); int srcft = 0;
     if (op->kind != RK_ELEM && op->kind != RK_ACC && op->kind != RK_LOAD && op->kind != RK_STORE && op->kind != RK_LOADP && !allow_special) return 0;
